@@ -55,7 +55,7 @@ def main():
             out[name] = res
             own = name.split("-")[0]
             caught = own in res.get("checks", {}) and res["checks"][own]["exit"] == 1
-            print(name, "CAUGHT by own check" if caught else "MISSED by own check", {k: v["rules"] for k, v in res.get("checks", {}).items()})
+            print(name, "CAUGHT by own check" if caught else "MISSED by own check", {k: v["rules"] for k, v in res.get("checks", {}).items()}, flush=True)
     json.dump(out, open(mpath, "w"), indent=1, sort_keys=True)
 
 
